@@ -52,7 +52,7 @@ Harness ==
   \/ WWrite("fail") /\ hist' = Append(hist, [a |-> Lbl("Write", 0, 0, "fail"), pre |-> Proj]) /\ pendingCrash' = FALSE
   \/ ncrash < MaxCrash /\ WWrite("ok") /\ hist' = Append(hist, [a |-> Lbl("Write", 0, 0, "crashafter"), pre |-> Proj]) /\ pendingCrash' = TRUE
   \/ \E i \in 1..2 : Pop /\ hist' = Append(hist, [a |-> Lbl("Pop", 0, 0, "-"), pre |-> Proj]) /\ pendingCrash' = FALSE
-  \/ \E i \in 1..2 : \E n \in R(0..(Batch + 1)) : PopBatch(n) /\ hist' = Append(hist, [a |-> Lbl("PopBatch", 0, n, "-"), pre |-> Proj]) /\ pendingCrash' = FALSE
+  \/ \E i \in 1..2 : \E n \in R((0 - 1)..(Batch + 1)) : PopBatch(n) /\ hist' = Append(hist, [a |-> Lbl("PopBatch", 0, n, "-"), pre |-> Proj]) /\ pendingCrash' = FALSE
   \/ WaitPoll /\ hist' = Append(hist, [a |-> Lbl("WaitPoll", 0, 0, "-"), pre |-> Proj]) /\ pendingCrash' = FALSE
   \/ Close /\ hist' = Append(hist, [a |-> Lbl("Close", 0, 0, "-"), pre |-> Proj]) /\ pendingCrash' = FALSE
   \/ Crash /\ hist' = Append(hist, [a |-> Lbl("Crash", 0, 0, "-"), pre |-> Proj]) /\ pendingCrash' = FALSE
